@@ -1,7 +1,10 @@
 import Proofs.Corollaries
 import Proofs.MatchSound
 import Proofs.EmbedSound
+import Proofs.RenameEndToEnd
 /-! C13: whatever signal an untyped scalar value is given, the source denotes the same (`retype_nodeVal`,
 `retype_bundle`), and the build is validated against the source with the compiler's actual choice
 (`scalar_end_to_end`, whose isolation premises are exactly "not a signal that already travels on the same wire").
-The theorem list audited on every run is in harness/props/c13.py. -/
+Bundle members and selections are covered by equivariance under every injective renaming (`rename_evalNodes`,
+`scalar_end_to_end_renamed`, `bundle_end_to_end_renamed`; the compiler's renaming is a composition of transpositions:
+`swaps_injective`). The theorem list audited on every run is in harness/props/c13.py. -/
